@@ -96,6 +96,9 @@ func faultsFor(fc *FieldCase) []dataFault {
 	case KUint16:
 		add("out of range for the field's kind", p, int64(-1), p)
 		add("out of range for the field's kind", p, uint64(70000), p)
+	case KF32:
+		add("unparsable string for a number / boolean", p, "zz", p)
+		add("out of range for the field's kind", p, float64(1e39), p)
 	case KDur:
 		add("unparsable duration", p, "zz", p)
 	case KStr, KPStr, KVStr, KUStr:
